@@ -10,9 +10,13 @@ import models as M
 T = __T__
 P = M.P
 INPUTS = [[P + 'A1'], [P + 'A2'], [P + 'A1', P + 'A2'], [M.NAME], [M.NAME, P + 'A2'], [P + 'A2', P + 'A1'], [P + 'B1'],
-          [P + 'A1', P + 'B1'], [M.BLOCK], [M.BLOCK, P + 'A1'], ['RANGE'], [P + 'I1', P + 'H2']]
-OUTPUTS_BLOCK = [P + 'J1', P + 'J2', P + 'J3']
-OUTPUTS = [[M.Q + 'A1'], [P + 'B2', P + 'C1'], [P + 'E1:F1'], [P + 'D1', P + 'G1'], [P + 'B1', M.Q + 'A1', P + 'B2']]
+          [P + 'A1', P + 'B1'], [M.BLOCK], [M.BLOCK, P + 'A1'], ['RANGE'], [P + 'I1', P + 'H2'],
+          [P + 'H6'], [P + 'H4', P + 'H1'], [M.NB]]       # 12-14: cells that are BLANK in the model (inside sparse ranges), a name over one
+# outputs around the 2x2 block, the constant-valued name (K4), the sparse ranges (K5, K7), the name over a blank cell (K6)
+OUTPUTS_BLOCK = [P + 'J1', P + 'J2', P + 'J3', P + 'K4', P + 'K5', P + 'K6', P + 'K7']
+# K10 = K9 - K8 + A2 with K8 = RAND(), K9 = K8*1: volatile cells cancel, the value is A2 whatever is frozen or not
+OUTPUTS = [[M.Q + 'A1'], [P + 'B2', P + 'C1', P + 'K10'], [P + 'E1:F1'], [P + 'D1', P + 'G1'], [P + 'B1', M.Q + 'A1', P + 'B2']]
+KNOWN_ABSENT = __KNOWN_ABSENT__      # known finding C08-absent-cell-as-compile-input is excluded (True) or demanded (False)
 
 
 def _compiled(i, o, a, b):
@@ -29,14 +33,17 @@ def _compiled(i, o, a, b):
         vals[0] = [[pl[a]], [pl[b]], [pl[a]]][:len(M.RANGE[T][1])]
     if set(inputs) & set(outputs):
         return True          # an input asked back as an output: not a case the statement speaks about
-    func = M.build(T).compile(inputs, outputs)
-    got = func(*vals)
+    try:
+        func = M.build(T).compile(inputs, outputs)
+        got = func(*vals)
+    except Exception:
+        return bool(KNOWN_ABSENT and i in (12, 14))
     got = [got] if len(outputs) == 1 else list(got)
     got = [M.norm_value(g.value if hasattr(g, 'value') else g) for g in got]
     sol = M.build(T).calculate(inputs=dict(zip(inputs, vals)), outputs=outputs)
     want = [M.norm_value(sol[k].value) for k in outputs]
     if got != want:
-        return False
+        return bool(KNOWN_ABSENT and i in (12, 14))
     # a second call with other arguments is not influenced by the first (nothing frozen)
     vals2 = [pl[b], pl[a]][:len(inputs)]
     if inputs[0] == M.BLOCK:
@@ -47,7 +54,7 @@ def _compiled(i, o, a, b):
     got2 = [got2] if len(outputs) == 1 else list(got2)
     got2 = [M.norm_value(g.value if hasattr(g, 'value') else g) for g in got2]
     sol2 = M.build(T).calculate(inputs=dict(zip(inputs, vals2)), outputs=outputs)
-    return got2 == [M.norm_value(sol2[k].value) for k in outputs]
+    return got2 == [M.norm_value(sol2[k].value) for k in outputs] or bool(KNOWN_ABSENT and i in (12, 14))
 
 
 def compiled_ok(i0: bool, i1: bool, i2: bool, i3: bool, o0: bool, o1: bool, o2: bool, a0: bool, a1: bool, a2: bool,
